@@ -390,6 +390,15 @@ def rule_safe_seed(ctx):
     reads = _direct_reads(ctx.cat, sql)
     ctx.check({("step", "_holding"), ("step", "state"), ("node", "creator")} <= reads, "scheduler.FILL_SAFE_UPDATE", "reads step._holding, step.state, node.creator",
               f"read set lacks {sorted({('step', '_holding'), ('step', 'state'), ('node', 'creator')} - reads)}", "read set ok")
+    # the seed reads the *stored* _safe of the creator, which is only valid when the creator is not being recomputed in
+    # the same pass: a flagged step whose creator is flagged too must not be a seed (it is reached by the recursion)
+    nc = re.sub(r"\s+", " ", re.sub(r"--[^\n]*", "", sql))
+    mseed = re.search(r"LEFT JOIN step AS creator_step ON creator_step\.node = cnode\.creator WHERE (.*?) UNION ALL", nc)
+    if not mseed:
+        raise AnalysisError("cannot isolate the seed WHERE clause of FILL_SAFE_UPDATE")
+    tt = ctx.cat.truth_table(mseed.group(1), {"s._check_safe": [0, 1], "creator_step._check_safe": [None, 0, 1]})
+    wrong = [(a, b) for (a, b), v in tt.items() if bool(v) != (a == 1 and b in (None, 0))]
+    ctx.check(not wrong, "scheduler.FILL_SAFE_UPDATE", "seeds = flagged steps whose creator is not flagged itself", f"seed predicate differs at (step flag, creator flag) = {wrong}: a step is seeded from the stale stored _safe of a creator that is recomputed in the same pass, MIN keeps the stale 0, the flag is cleared, and a step whose creators are all running or succeeded is never dispatched", "topmost flagged step seeds", where="scheduler.py FILL_SAFE_UPDATE")
     # seed expressions: COALESCE(creator_step._safe AND state IN (...) AND _holding = 0, 1)
     flat = re.sub(r"\s+", " ", sql)
     seeds = re.findall(r"COALESCE\( (creator_step\._safe(?:_ignoring_hold)? AND .*?), 1 \)", flat)
@@ -572,6 +581,7 @@ def _drop_trigger(name):
 
 
 MUTANTS = [
+    Mutant("seed-from-flagged-creator", "scheduler.py", replace_once("    WHERE s._check_safe AND NOT COALESCE(creator_step._check_safe, 0)\n", "    WHERE s._check_safe\n"), ("R-C10-4",)),
     Mutant("revalidated-not-propagated", "step.py", in_function("Step.mark_completed", replace_once("                    file.set_state(FileState.BUILT)\n                    self.graph.mark_consuming_steps_pending(file)\n", "                    file.set_state(FileState.BUILT)\n")), ("R-C10-5",)),
     Mutant("when-narrowed-detached", "step.py", replace_once("AFTER UPDATE OF detached ON node\nWHEN OLD.detached != NEW.detached\nBEGIN\n    UPDATE step SET _check_ready = 1", "AFTER UPDATE OF detached ON node\nWHEN NEW.detached AND NOT OLD.detached\nBEGIN\n    UPDATE step SET _check_ready = 1"), ("R-C10-1",)),
     Mutant("when-narrowed-file-state", "step.py", sub_once(r"(CREATE TRIGGER IF NOT EXISTS step_file_check_ready_upd AFTER UPDATE OF state ON file\n)WHEN OLD.state != NEW.state", r"\1WHEN OLD.state != NEW.state AND NEW.state != " + "{FileState.OUTDATED.value}"), ("R-C10-1",)),
